@@ -53,9 +53,15 @@ func BuildString(n int, fill string) string {
 	return s + strings.Repeat("p", n-len(s))
 }
 
+// WireMax caps every generated wire string (bytes); properties that need short frames lower it.
+var WireMax = 1 << 30
+
 // WireString draws a string whose byte length is clustered around the prefix boundaries, at most max bytes.
 func WireString(t *rapid.T, label string, max int) string {
 	lens := []int{0, 0, 1, 2, 5, 17, 126, 127, 128, 129, 254, 255, 256, 257, 1000, 32766, 32767, 32768, 32769, 65534, 65535, 65536, 70000}
+	if max > WireMax {
+		max = WireMax
+	}
 	var ok []int
 	for _, l := range lens {
 		if l <= max {
@@ -65,6 +71,9 @@ func WireString(t *rapid.T, label string, max int) string {
 	var n int
 	switch rapid.IntRange(0, 9).Draw(t, label+".kind") {
 	case 0, 1, 2, 3: // small free-form
+		if max < 40 {
+			return rapid.StringN(0, max/4, max).Draw(t, label)
+		}
 		return rapid.StringN(0, 12, 40).Draw(t, label)
 	case 4, 5, 6, 7, 8: // boundary lengths
 		n = rapid.SampledFrom(ok).Draw(t, label+".len")
